@@ -73,6 +73,7 @@ Blame ==
   @@ "blk.reglock" :> {"C08"} @@ "blk.regping" :> {"C08"}
   @@ "oe.res.send" :> {"C12", "C02"}
   @@ "oe.ready.send" :> {"C12"}
+  @@ "oe.res.force_send" :> {"C05", "C15"}
   @@ "oe.res.call" :> {"C02"}
   @@ "oe.val.call" :> {"C02", "C01"}
   @@ "oe.ready.call" :> {"C02"}
